@@ -1078,9 +1078,62 @@ fn fam_cli(ctx: &mut Ctx) {
     }
 }
 
+/// `-o format=F` and `--format F` on the real binary: the format string reaches the printer
+/// verbatim — upper-case literal text and upper-case field names included
+fn fam_cli_format_text(ctx: &mut Ctx) {
+    if ctx.shard != 0 || !super::c04::ensure_binary() {
+        return;
+    }
+    let dir = format!("/verif/harness/target/scratch/c18-{}", std::process::id());
+    let _ = std::fs::create_dir_all(&dir);
+    let path = format!("{}/in.log", dir);
+    let _ = std::fs::write(&path, "{\"Level\":\"WARN\",\"msg\":\"Disk Full\",\"Code\":507,\"k\":\"a\"}\n{\"Level\":\"info\",\"msg\":\"ok\",\"Code\":200,\"k\":\"B\"}\n");
+    let rows: [[(&str, &str); 4]; 2] = [[("Level", "WARN"), ("msg", "Disk Full"), ("Code", "507"), ("k", "a")], [("Level", "info"), ("msg", "ok"), ("Code", "200"), ("k", "B")]];
+    let mut r = ctx.rng.fork();
+    for i in 0..ctx.budget(24 * 16, 200 * 16) {
+        // pieces: literal text (any case, `=`, non-ASCII) and {Field} placeholders
+        let np = 1 + r.below(5);
+        let mut fmt = String::new();
+        let mut want = [String::new(), String::new()];
+        for _ in 0..np {
+            if r.chance(50) {
+                let lit = *r.pick(&["LEVEL=", " Msg[", "] ", "X", "É=", "=>", "Code:", " a=b ", "Zz", "-"]);
+                fmt.push_str(lit);
+                want[0].push_str(lit);
+                want[1].push_str(lit);
+            } else {
+                let key = *r.pick(&["Level", "msg", "Code", "k", "level", "MSG"]);
+                fmt.push_str(&format!("{{{}}}", key));
+                for (ri, row) in rows.iter().enumerate() {
+                    want[ri].push_str(row.iter().find(|kv| kv.0 == key).map(|kv| kv.1).unwrap_or("None"));
+                }
+            }
+        }
+        let expect = format!("{}\n{}\n", want[0], want[1]);
+        let of = format!("format={}", fmt);
+        let a = super::c04::run_binary(&["* | json", "-o", &of], Some(&path));
+        let b = super::c04::run_binary(&["* | json", "--format", &fmt], Some(&path));
+        let key = format!("cli-format-text:{}:{}", i, fmt);
+        match (a, b) {
+            (Some(a), Some(b)) => {
+                let (oa, ob) = (String::from_utf8_lossy(&a.stdout).to_string(), String::from_utf8_lossy(&b.stdout).to_string());
+                if oa == expect && ob == expect {
+                    ctx.case("cli-format-text", &key, "pass", serde_json::json!({"format": fmt}));
+                } else {
+                    ctx.case("cli-format-text", &key, "viol", serde_json::json!({"class": "C18/format-substitution", "what": "the format string does not reach the output verbatim (each {field} replaced by the field's text, all other text intact)",
+                        "format": fmt, "expected": expect, "with_o_format": oa, "with_format_flag": ob}));
+                }
+            }
+            _ => ctx.case("cli-format-text", "", "skip", serde_json::json!({"why": "cannot start the agrind binary"})),
+        }
+    }
+    let _ = std::fs::remove_dir_all(&dir);
+}
+
 /* hazards */
 
 fn fam_hazards(ctx: &mut Ctx) {
+    fam_cli_format_text(ctx);
     // duplicate column names
     let agg = Aggregate { columns: vec!["_count".into(), "_count".into()], data: vec![[("_count".to_string(), Value::Int(1))].into_iter().collect()] };
     if let Ok(Ok(b)) = print_rows(&OutputMode::Json, &[Row::Aggregate(agg.clone())]) {
